@@ -25,7 +25,11 @@ use text_utils::verif::{install, Point};
 
 thread_local! {
     static WORKER: Cell<usize> = const { Cell::new(0) };
+    /// the run (Ctl::id) whose pipe spawned this thread; 0 = not yet seen
+    static BOUND: Cell<u64> = const { Cell::new(0) };
 }
+
+static NEXT_RUN: std::sync::atomic::AtomicU64 = std::sync::atomic::AtomicU64::new(1);
 
 #[derive(Clone, Copy, PartialEq, Debug)]
 enum Mode {
@@ -51,6 +55,7 @@ struct Inner {
 }
 
 struct Ctl {
+    id: u64,
     mode: Mode,
     seed: u64,
     jitter: f64,
@@ -61,6 +66,7 @@ struct Ctl {
 impl Ctl {
     fn new(mode: Mode, w: usize, seed: u64, jitter: f64) -> Arc<Self> {
         Arc::new(Ctl {
+            id: NEXT_RUN.fetch_add(1, std::sync::atomic::Ordering::SeqCst),
             mode,
             seed,
             jitter,
@@ -128,6 +134,15 @@ fn jitter(ctl: &Ctl, w: usize) {
 /// The hook callback installed into the library.
 fn on_point(ctl: &Arc<Ctl>, thread: usize, p: Point, idx: usize, ok: bool) {
     let w = thread + 1;
+    // A worker left over from an earlier, abandoned run (a wedged pipe never lets its threads
+    // return) looks the callback up per call and would land in this run's controller.
+    let bound = BOUND.with(|c| c.get());
+    if bound == 0 {
+        BOUND.with(|c| c.set(ctl.id));
+    } else if bound != ctl.id {
+        std::thread::sleep(Duration::from_millis(2));
+        return;
+    }
     WORKER.with(|c| c.set(w));
     match ctl.mode {
         Mode::Free => {
@@ -550,7 +565,29 @@ fn run_free(w: usize, n: usize, seed: u64, drop_after: Option<usize>, slow: f64,
            "acts": [], "sched": [], "seed": seed, "drained": true})
 }
 
+/// Runs in which the controller gave up waiting (each costs STEP_TIMEOUT and, on a wedged pipe,
+/// leaves spinning threads behind).  After a few of them the verdict is settled: stop running.
+static STUCK_RUNS: std::sync::atomic::AtomicUsize = std::sync::atomic::AtomicUsize::new(0);
+const STUCK_CUTOFF: usize = 6;
+
+fn stuck_cutoff(case: &Value) -> Option<Vec<Value>> {
+    if STUCK_RUNS.load(std::sync::atomic::Ordering::SeqCst) >= STUCK_CUTOFF {
+        return Some(vec![json!({"st": "notrun", "case": case.clone()})]);
+    }
+    None
+}
+
+fn note_stuck(r: &Value) {
+    let stuck = r["ev"].as_array().map(|a| a.iter().any(|e| e["e"] == "Stuck")).unwrap_or(false);
+    if stuck {
+        STUCK_RUNS.fetch_add(1, std::sync::atomic::Ordering::SeqCst);
+    }
+}
+
 pub fn exec(case: &Value) -> Vec<Value> {
+    if let Some(r) = stuck_cutoff(case) {
+        return r;
+    }
     let w = get_u(case, "W");
     let n = get_u(case, "N");
     let mode = get_str(case, "mode");
@@ -567,6 +604,7 @@ pub fn exec(case: &Value) -> Vec<Value> {
         let drain = case.get("drain").and_then(|x| x.as_bool()).unwrap_or(true);
         run_controlled(w, n, &sched, get_bool(case, "blocking"), drain)
     };
+    note_stuck(&r);
     r["case"] = case.clone();
     if let Some(p) = case.get("path") {
         r["path"] = p.clone();
@@ -939,6 +977,9 @@ fn run_buffered_free(cap: usize, n: usize, seed: u64, drop_after: Option<usize>,
 }
 
 pub fn exec_buffered(case: &Value) -> Vec<Value> {
+    if let Some(r) = stuck_cutoff(case) {
+        return r;
+    }
     let cap = get_u(case, "cap");
     let n = if get_bool(case, "unbounded") { usize::MAX } else { get_u(case, "N") };
     let mut r = if get_str(case, "ctl") == "free" {
@@ -952,6 +993,7 @@ pub fn exec_buffered(case: &Value) -> Vec<Value> {
             .unwrap_or_default();
         run_buffered_controlled(cap, n, &sched, false)
     };
+    note_stuck(&r);
     r["case"] = case.clone();
     if let Some(p) = case.get("path") {
         r["path"] = p.clone();
